@@ -669,7 +669,8 @@ def eval_tree(e, env):
             return bool(eval_tree(ops[0], env)) or bool(eval_tree(ops[1], env))
         a, b = eval_tree(ops[0], env), eval_tree(ops[1], env)
         return {"==": a == b, "!=": a != b, "<": a < b, ">": a > b, "<=": a <= b, ">=": a >= b,
-                "&": a & b, "|": a | b, "+": a + b, "-": a - b}[op] if op in ("==", "!=", "<", ">", "<=", ">=", "&", "|", "+", "-") else _unk(t)
+                "&": a & b, "|": a | b, "+": a + b, "-": a - b}[op] if op in ("==", "!=", "<", ">", "<=", ">=", "&", "|", "+", "-") else \
+            (a * b if op == "*" else (int(a / b) if op == "/" and b != 0 else (int(a - b * int(a / b)) if op == "%" and b != 0 else _unk(t))))
     if k == "cond":
         return eval_tree(e["t"], env) if eval_tree(e["c"], env) else eval_tree(e["f"], env)
     raise Unknown(t)
